@@ -2,7 +2,7 @@
    (bool/option/list/prod/unit/sumbool mapped to OCaml's); N, Z, positive and
    nat stay the extracted inductive datatypes.  No Extract Constant. *)
 From Coq Require Extraction ExtrOcamlBasic.
-From SyModel Require Import Adler Delta Filter Bisync Engine Wire Sparse.
+From SyModel Require Import Adler Delta Filter Bisync Engine Wire Sparse Verify.
 Extraction Language OCaml.
 Set Extraction AccessOpaque.
 Extraction "model.ml"
@@ -11,4 +11,5 @@ Extraction "model.ml"
   Filter.should_include Filter.build_rules Filter.engine_select Filter.listing_ok
   Bisync.classify Bisync.resolve Bisync.bisync Bisync.run_step Bisync.empty_world Bisync.actions_of Bisync.converged
   Engine.run Engine.exit_status
-  Wire.should_compress_smart Wire.sniff_receive_file Wire.sniff_apply_delta Sparse.receive_sparse Sparse.detect Sparse.pack.
+  Wire.should_compress_smart Wire.sniff_receive_file Wire.sniff_apply_delta Sparse.receive_sparse Sparse.detect Sparse.pack
+  Verify.verify Verify.verify_exit.
